@@ -461,6 +461,7 @@ def run_one(part, seed):
 
 def run(ctx):
     model_batch(ctx, 180 if ctx.tier == 'quick' else 1800)
+    delta_ofv_batch(ctx, 60 if ctx.tier == 'quick' else 800)
     reps = {'bootstrap': 12, 'cdd': 25, 'shrinkage': 25, 'delta_method': 40, 'simeval': 25}
     if ctx.tier != 'quick':
         reps = {k: v * 12 for k, v in reps.items()}
@@ -706,6 +707,53 @@ def model_case(rng, kind, ids):
         ser = lambda d, o: _lst([f'({idn(i)}, (Some {_q(d[i])}))' for i in o])
         return f"(StSim {'true' if style != 'ragged' else 'false'} {_lst([ser(d, o) for d, o in zip(sims, orders)])} {ser(orig, oorder)} {_lst(obs)})"
     raise ValueError(kind)
+
+
+def delta_ofv_batch(ctx, n, only_seeds=None):
+    """cdd compute_delta_ofv + the dofv_influential flag (as calculate_results computes it) against Stats3, exactly"""
+    import pandas as pd
+    from pharmpy.tools.cdd.results import compute_delta_ofv
+    from pharmpy.workflows import ModelfitResults
+    terms, seeds = [], []
+    for i in range(n):
+        seed = only_seeds[i] if only_seeds else f'{ctx.seed}-deltaofv-{i}'
+        rng = random.Random(seed)
+        nind = rng.choice([1, 2, 3, 5, 8, 12])
+        idl = rng.sample(range(1, 40), nind)                      # labels in arbitrary order
+        iofv = {k: F(rng.randrange(-40, 400), 8) for k in idl}
+        ncase = rng.choice([1, 2, 4, 7])
+        cases = []
+        for _ in range(ncase):
+            sk = rng.sample(idl, rng.choice([0, 1, 1, 2])) if nind >= 2 else [idl[0]]
+            if rng.random() < 0.15:
+                sk = sk + [77]                                    # an individual the base results do not list
+            base_kept = sum(v for k, v in iofv.items() if k not in sk)
+            ofv = None if rng.random() < 0.15 else base_kept - rng.choice([F(0), F(1), F(3), F(31, 8), F(4), F(10), F(-2)])
+            cases.append((sk, ofv))
+        with_iofv = rng.random() < 0.9
+        base = ModelfitResults(ofv=1.0, individual_ofv=pd.Series([float(iofv[k]) for k in idl], index=idl) if with_iofv else None)
+        ress = [None if o is None else ModelfitResults(ofv=float(o)) for _, o in cases]
+        try:
+            got = compute_delta_ofv(base, ress, [sk for sk, _ in cases])
+            infl = [elt > 3.86 for elt in got]                    # tools/cdd/results.py calculate_results
+        except Exception as e:
+            ctx.violation(f'tool statistic raises on valid input: cdd delta ofv ({type(e).__name__})',
+                          {'stats': {'part': 'deltaofv', 'seed': seed}, 'exception': f'{type(e).__name__}: {e}',
+                           'input': {'individual_ofv': {str(k): float(v) for k, v in iofv.items()} if with_iofv else None,
+                                     'cases': [[sk, None if o is None else float(o)] for sk, o in cases]}})
+            continue
+        pid = lambda k: f'{int(k)}%positive'
+        it = 'None' if not with_iofv else '(Some ' + _lst([f'({pid(k)}, {_q(iofv[k])})' for k in idl]) + ')'
+        ct_ = _lst([f"({_lst([pid(k) for k in sk])}, {'None' if o is None else '(Some ' + _q(o) + ')'})" for sk, o in cases])
+        terms.append(f"(mkDdcase {it} {ct_} {_lst([_oq(x) for x in got])} {_lst(['true' if b else 'false' for b in infl])})")
+        seeds.append(seed)
+    verdicts = ctx.run_cases('deltaofv', 'C19.Model C19.Stats C19.Stats3', 'ddcase', terms, 'ddverdict', shard=200)
+    bad = [sd for sd, v in zip(seeds, verdicts) if v]
+    for sd in bad[:3]:
+        ctx.violation('cdd delta OFV / influential flag does not equal its defining formula', {'stats': {'part': 'deltaofv', 'seed': sd}})
+    ctx.coverage['cdd_delta_ofv_cases'] = {'cases': n, 'disagreements': len(bad)}
+    ctx.coverage['evaluations'] += n
+    ctx.log('cdd delta OFV cases done', ctx.coverage['cdd_delta_ofv_cases'])
 
 
 def describe_case(kind, seed):
